@@ -415,6 +415,14 @@ def report(prop, tier, seed, cfg, results, kres, known, t0, selftest=()):
                         continue
                     if e["msg"].startswith("recommendation not met"):
                         continue
+                    auto = set()
+                    for x in info["rewrites"]:
+                        if x.get("rule") == "R20-auto-helper":
+                            auto.update(n.strip() for n in x.get("before", "").split("helper(s)")[-1].split(","))
+                    if (e["where"] or "").split("fn ")[-1].strip() in auto:
+                        # an obligation INSIDE an auto-extracted helper (it has no authored precondition): not a verdict
+                        undecided.append("%s: obligation inside auto-extracted helper %s (%s)" % (unit, e["where"], e["msg"]))
+                        continue
                     drifted = any(x.get("rule") == "mirror-drift" and x.get("where") == e["where"] for x in info["rewrites"])
                     if drifted and e["msg"].startswith("assertion failed") and re.match(r"assert\s*(\(|forall)", e["snippet"]):
                         # the function's text differs from the authoring-time mirror and what failed is one of OUR
